@@ -73,6 +73,9 @@ type scenario struct {
 	// EOFWithData: the readers return io.EOF together with their last non-empty chunk (n > 0, io.EOF), as
 	// iotest.DataErrReader and decompressing readers do, instead of (0, io.EOF) on a further call
 	EOFWithData bool `json:"eof_with_data,omitempty"`
+	// Via: the entry point of the final calculation — "" CalculateWithContext(ctx, reader), "calculate" Calculate(reader),
+	// "string" hashing.CalculateStringHash(hasher, string(content)) (the chunking of Final is then immaterial)
+	Via string `json:"via,omitempty"`
 }
 
 type scriptReader struct {
@@ -216,7 +219,30 @@ func runScenario(r *h.Run, sc scenario, emit bool) {
 		}
 	}
 	content := delivered(sc.Final)
-	d, e := runCalc(hs, sc.Final)
+	var d string
+	var e error
+	switch sc.Via {
+	case "calculate":
+		d, e = hs.Calculate(&scriptReader{evs: sc.Final, cancel: func() {}, eofWithData: eofWithData})
+	case "string":
+		d = hashing.CalculateStringHash(hs, string(content))
+		if d == "" {
+			e = errors.New("CalculateStringHash returned the empty string")
+		}
+		// the helpers that build their own hasher
+		r.Count("entry=fresh-hasher-helpers")
+		if x := hashing.CalculateHash(string(content), sc.Algo); x != ref(sc.Algo, content) {
+			r.Fail("digest-mismatch-fresh:"+sc.Algo+":CalculateHash", fmt.Sprintf("CalculateHash(text of %d bytes, %s) differs from the reference digest", len(content), sc.Algo), sc)
+		}
+		if sc.Algo == hashing.HashMd5 {
+			if x := hashing.CalculateMD5Hash(string(content)); x != ref(sc.Algo, content) {
+				r.Fail("digest-mismatch-fresh:"+sc.Algo+":CalculateMD5Hash", fmt.Sprintf("CalculateMD5Hash(text of %d bytes) differs from the reference digest", len(content)), sc)
+			}
+		}
+	default:
+		d, e = runCalc(hs, sc.Final)
+	}
+	r.Count("entry=" + map[string]string{"": "CalculateWithContext", "calculate": "Calculate", "string": "CalculateStringHash"}[sc.Via])
 	hist := "none"
 	for _, s := range sc.Hist {
 		if o := outcome(s); o != "success" {
@@ -233,7 +259,11 @@ func runScenario(r *h.Run, sc scenario, emit bool) {
 		r.Fail("final-calc-error:"+sc.Algo, "successful reader script but Calculate returned "+e.Error(), sc)
 	} else {
 		if d != ref(sc.Algo, content) {
-			r.Fail("digest-depends-on-history:"+sc.Algo+":after-"+hist, fmt.Sprintf("digest of %d bytes after a history (%s) differs from the reference digest", len(content), hist), sc)
+			via := ""
+			if sc.Via != "" {
+				via = ":" + sc.Via
+			}
+			r.Fail("digest-depends-on-history:"+sc.Algo+":after-"+hist+via, fmt.Sprintf("digest of %d bytes after a history (%s) differs from the reference digest (entry point %q)", len(content), hist, sc.Via), sc)
 		}
 		// smallest L with digest == ref(last L bytes delivered before ++ content)
 		if emit {
@@ -549,7 +579,7 @@ func main() {
 	r := h.Init("C20")
 	r.Imports = []string{"GU.C20.Model"}
 	r.Rule("six algorithms x histories of 0..4 earlier calculations on the same hasher (success / read error at byte k / cancellation at byte k) x contents (quick 0..2^16, thorough 0..2^20, buffer boundaries) x chunkings incl. zero-length reads; " +
-		"non-trivial = non-empty history and non-empty content; distinct by (algo, history, content hash). File hashing on the OS and in-memory back ends, and (repeatedly, with reads in between) on the tar and zip archive back ends.")
+		"non-trivial = non-empty history and non-empty content; distinct by (algo, history, content hash). Final calculation through CalculateWithContext, Calculate or CalculateStringHash (+ the fresh-hasher helpers CalculateHash / CalculateMD5Hash). File hashing on the OS and in-memory back ends, and (repeatedly, with reads in between) on the tar and zip archive back ends.")
 	var sc scenario
 	if _, ok := r.ReplayObject(&sc); ok {
 		runScenario(r, sc, false)
@@ -563,6 +593,12 @@ func main() {
 		runScenario(r, scenario{Algo: a, Hist: [][]ev{{{Kind: 0, B: []byte("abc")}, {Kind: 2, B: []byte("zz")}}}, Final: []ev{{Kind: 0, B: []byte("hello world")}}}, true)
 		runScenario(r, scenario{Algo: a, Hist: [][]ev{{{Kind: 0, B: []byte("ok")}}, {{Kind: 0, B: []byte("abc")}, {Kind: 1, B: []byte("d")}}, {{Kind: 0, B: []byte("fine")}}}, Final: []ev{{Kind: 0, B: []byte("hello world")}}}, true)
 		runScenario(r, scenario{Algo: a, Hist: nil, Final: nil}, true)
+		for _, via := range []string{"calculate", "string"} {
+			runScenario(r, scenario{Algo: a, Via: via, Hist: [][]ev{{{Kind: 0, B: []byte("partial")}, {Kind: 1}}}, Final: []ev{{Kind: 0, B: []byte("hello world")}}}, true)
+			runScenario(r, scenario{Algo: a, Via: via, Hist: [][]ev{{{Kind: 0, B: []byte("abc")}, {Kind: 2, B: []byte("zz")}}}, Final: []ev{{Kind: 0, B: []byte("hello world")}}}, true)
+			runScenario(r, scenario{Algo: a, Via: via, Hist: [][]ev{{{Kind: 0, B: []byte("fine")}}}, Final: []ev{{Kind: 0, B: []byte("hello ")}, {Kind: 0, B: []byte("world")}}}, true)
+			runScenario(r, scenario{Algo: a, Via: via, Hist: nil, Final: nil}, true)
+		}
 		runScenario(r, scenario{Algo: a, Hist: [][]ev{{{Kind: 0, B: []byte("abc")}}}, Final: []ev{{Kind: 0, B: []byte("hello ")}, {Kind: 0, B: []byte("world")}}, EOFWithData: true}, true)
 		// a stream that breaks off midway is a failure whatever error value the reader uses (truncated stream = io.ErrUnexpectedEOF, ...)
 		for e := range injectedErrs {
@@ -603,7 +639,7 @@ func main() {
 		default:
 			content = randBytes(r, r.Rng.Intn(maxLen+1))
 		}
-		runScenario(r, scenario{Algo: a, Hist: hist, Final: genChunks(r, content), EOFWithData: r.Rng.Intn(3) == 0}, small)
+		runScenario(r, scenario{Algo: a, Hist: hist, Final: genChunks(r, content), EOFWithData: r.Rng.Intn(3) == 0, Via: []string{"", "", "calculate", "string"}[r.Rng.Intn(4)]}, small)
 	}
 	fileScenarios(r)
 	fileHistoryScenarios(r)
